@@ -140,12 +140,14 @@ def run_replay(ctx, binary, cases, crash_ok=False):
     inside mtail is recorded as the result of that case (ok=False, kind 'crash')."""
     todo = harness_cases(cases)
     results = {}
-    while todo:
+    ncrash = 0
+    while todo and ncrash < 3:      # a tree that crashes is not replayed to the end
         recs, crash = _run_bin(ctx, binary, todo)
         got = [r for r in recs if "id" in r and "trace" in r]
         for r in got:
             results[r["id"]] = r
         if crash:
+            ncrash += 1
             results[crash.case_id] = {"id": crash.case_id, "ok": False, "trace": [], "writes": [], "procd": [],
                                       "mismatch": {"kind": "crash", "step": None, "why": crash.text, "got": None, "want": None}}
         elif not got:
@@ -445,7 +447,8 @@ def run(ctx):
         if not cases:
             raise vlib.InfraError("TLC emitted no cases for %s" % what)
         results = run_replay(ctx, binary, cases)
-        if len(results) != len(cases):
+        partial = results.pop("truncated", False) or any((r.get("mismatch") or {}).get("kind") == "crash" for r in results.values())
+        if len(results) != len(cases) and not partial:
             raise vlib.InfraError("harness lost cases (%s)" % what)
         classify_replay(ctx, binary, cases, results, held, what)
         ran = [c for c in cases if c["id"] in results]
